@@ -151,6 +151,34 @@ def rewrite(p, rule):
     return q
 
 
+def c_defined(m, p, st, regions):
+    """None when CV.CSem gives the plain program a meaning from this state (then the spellings must agree);
+    otherwise the reason (`oob`, `fuel`, …). A program CSem cannot read at all counts as defined (it is judged)."""
+    import csemx
+    try:
+        gen_c.program_tokens(p)
+    except gen_c.Unsupported:
+        return None
+    sc, ar = csemx.decl_info(p)
+    vals, arrs = [], []
+    try:
+        for (n, b) in sc:
+            a, nb, info = regions[n]
+            cell = a + 0x80 if info["mem"] == "superchip" else a
+            v = st["mem"].get(cell, 0) | ((st["mem"].get(cell + 1, 0) << 8) if b == 16 else 0)
+            vals.append((n, b, v))
+        for (n, ln, b) in ar:
+            a, nb, info = regions[n]
+            cell = a + 0x80 if info["mem"] == "superchip" else a
+            xs = [st["mem"].get(cell + i, 0) | ((st["mem"].get(cell + ln + i, 0) << 8) if b == 16 else 0) for i in range(ln)]
+            arrs.append((n, xs))
+    except KeyError:
+        return None
+    vals += [("X", 8, st["x"]), ("Y", 8, st["y"])]
+    exp = csemx.expected(m, p, vals, arrs)
+    return None if exp[0] == "ok" else str(exp[0])
+
+
 def run(chk):
     ok, obligations = prepare(chk)
     if not ok:
@@ -183,6 +211,13 @@ def run(chk):
                     if x["stop"].startswith("fault") or y["stop"].startswith("fault"):
                         continue
                     if coexec.observable(x, lay[3]) != coexec.observable(y, lay[3]):
+                        # the two spellings may differ where C leaves the behaviour undefined: a subscript outside its
+                        # array (X and Y start anywhere) can read the scratch cell, which the spellings use differently.
+                        # CV.CSem decides: a state it rejects (out-of-range subscript, no termination) is not judged
+                        why = c_defined(m, p, st, lay[3])
+                        if why is not None:
+                            chk.count("divergence_in_undefined_state_" + why)
+                            continue
                         sig = "rewrite-" + rule
                         chk.fail(sig, "rule `%s`: the two spellings end in different states at -O%d" % (rule, level),
                                  {"plain": p.text, "rewritten": q.text, "level": level, "rule": rule, "initial": {"x": st["x"], "y": st["y"]},
